@@ -11,7 +11,7 @@ import (
 func init() {
 	register("C05", &ruleSet{
 		run:    runC05,
-		floors: map[string]int{"O1": 1, "O2": 1, "O3": 4, "O4": 4},
+		floors: map[string]int{"O1": 1, "O2": 1, "O3": 4, "O4": 4, "O5": 2},
 		explain: "Decides, from the SSA of every path, that (O1) each constructor of a limiter owning a limit and a strategy passes " +
 			"strategy.SetLimit(limit.EstimatedLimit()) on every path that returns the limiter; (O2) every call of the limit's OnSample on such a limiter " +
 			"is followed on every path, before return and with the limiter's exclusive mutex held throughout, by SetLimit(EstimatedLimit()) on the same " +
@@ -64,6 +64,7 @@ func runC05(p *Prog, l *Ledger) {
 	l.Rule("O2", "every Limit.OnSample call on a limiter's limit is followed, on every path and under the limiter's exclusive mutex, by strategy.SetLimit(limit.EstimatedLimit())")
 	l.Rule("O3", "Strategy.SetLimit stores exactly max(1,arg) into its limit field on every path (or leaves it when already equal) and passes the same floored value to every share update")
 	l.Rule("O4", "enforced-limit fields of strategies are written only by their constructors and SetLimit")
+	l.Rule("O5", "every partition share is recomputed from the value it is given and from nothing else: UpdateLimit stores exactly max(1, ceil(float(total) x fraction)) (shared with C03/O2)")
 	l.NotCovered = []string{"which values the limit algorithm produces", "callers that change a SettableLimit directly (no completion runs)"}
 
 	owners := p.limiterOwners()
@@ -250,6 +251,8 @@ func runC05(p *Prog, l *Ledger) {
 		})
 	}
 
+	c05Shares(p, l)
+
 	// ---- O3 / O4
 	si := p.coreIface("Strategy")
 	strategies := p.Implementers(si)
@@ -357,6 +360,13 @@ func runC05(p *Prog, l *Ledger) {
 		l.Check(len(offenders) == 0, "O4", p.FieldKey(lf), p.FuncPos(fn),
 			fmt.Sprintf("%d write sites, all in SetLimit or on a freshly allocated object", nsites),
 			"enforced limit is written outside its constructor and SetLimit", offenders...)
+	}
+}
+
+func c05Shares(p *Prog, l *Ledger) {
+	for _, st := range c03Discover(p, l) {
+		n, bad := c03ShareFormula(p, st)
+		l.Check(len(bad) == 0 && n > 0, "O5", p.Key(st.Update), p.FuncPos(st.Update), "the share depends only on the total it is given and the partition's immutable fraction", "a partition share is not recomputed from the new limit alone", bad...)
 	}
 }
 
